@@ -513,6 +513,11 @@ class Generator(object):
             ''
         ]
 
+        if not lines:
+            # All alternatives are NULL. An empty union is not valid
+            # C99.
+            lines = ['uint8_t dummy;']
+
         lines = [
             'enum {}_choice_e choice;'.format(self.location),
             'union {'
